@@ -234,6 +234,10 @@ pub enum Fault {
 #[derive(Clone, Copy, Debug, Serialize, Deserialize, PartialEq, Eq, Hash, PartialOrd, Ord)]
 pub enum AckKind {
     Success,
+    /// success whose result bytes are the single byte 0x01 (ibc-go's marker)
+    SuccessByte01,
+    /// success whose result is a JSON document (e.g. what a hook middleware returns)
+    SuccessJson,
     Error,
     Garbage,
 }
@@ -241,6 +245,8 @@ impl AckKind {
     fn bytes(&self) -> Vec<u8> {
         match self {
             AckKind::Success => br#"{"result":"MQ=="}"#.to_vec(),
+            AckKind::SuccessByte01 => br#"{"result":"AQ=="}"#.to_vec(),
+            AckKind::SuccessJson => br#"{"result":"eyJjb250cmFjdF9yZXN1bHQiOiJlMzA9IiwiaWJjX2FjayI6ImV5SnlaWE4xYkhRaU9pSkJVVDA5SW4wPSJ9"}"#.to_vec(),
             AckKind::Error => br#"{"error":"remote says no"}"#.to_vec(),
             AckKind::Garbage => b"zzz".to_vec(),
         }
@@ -446,7 +452,13 @@ impl Cfg {
             recv_memos: vec![],
             bad_receivers: vec![Rcv::User(B)],
             raws: vec![0, 1],
-            ack_kinds: vec![AckKind::Success, AckKind::Error, AckKind::Garbage],
+            ack_kinds: vec![
+                AckKind::Success,
+                AckKind::SuccessByte01,
+                AckKind::SuccessJson,
+                AckKind::Error,
+                AckKind::Garbage,
+            ],
             timeouts: true,
             fault_bound: 0,
             fault_kinds: vec![Fault::Reject],
@@ -1236,6 +1248,8 @@ fn label(a: &Act) -> String {
         Act::Recv { .. } => "Recv.foreign-or-malformed-denom".into(),
         Act::RecvRaw { .. } => "Recv.raw-garbage".into(),
         Act::Ack { kind: AckKind::Success, .. } => "Ack.success".into(),
+        Act::Ack { kind: AckKind::SuccessByte01, .. } => "Ack.success(0x01)".into(),
+        Act::Ack { kind: AckKind::SuccessJson, .. } => "Ack.success(json result)".into(),
         Act::Ack { kind: AckKind::Error, fault: Fault::None, .. } => "Ack.error".into(),
         Act::Ack { kind: AckKind::Error, .. } => "Ack.error+refund-fault".into(),
         Act::Ack { kind: AckKind::Garbage, .. } => "Ack.garbage".into(),
@@ -1749,6 +1763,24 @@ impl Model for Ics20Model {
                         let b = base.clone().unwrap_or_default();
                         sub(&mut r.out, (ch, b.clone()), amt);
                         if p.c12 {
+                            // only vouchers that carry exactly this channel's counterparty prefix are this
+                            // channel's vouchers; anything else redeemed here makes the balance stop tracking them
+                            if matches!(
+                                den,
+                                Some(Den::OtherChannel(_)) | Some(Den::OtherPort(_)) | Some(Den::Foreign(_)) | Some(Den::LocalPrefix(_)) | Some(Den::TwoParts) | None
+                            ) {
+                                v.push(Violation::new(
+                                    "C12.success_ack_only_for_this_channels_vouchers",
+                                    format!(
+                                        "success acknowledgement on {} (counterparty end {}/{}) for denom {:?}, which does not carry this channel's voucher prefix: {}",
+                                        local_chan(ch),
+                                        REMOTE_PORT,
+                                        remote_chan(ch),
+                                        den.map(|d| d.string(ch)),
+                                        pre.diff(&post)
+                                    ),
+                                ));
+                            }
                             let paid = match to {
                                 Some(Rcv::User(u)) => post.bal(&actor(u), &b).checked_sub(pre.bal(&actor(u), &b)) == Some(amt),
                                 _ => false,
